@@ -443,6 +443,11 @@ func (p *Process) stopProcess(cancelReadinessFuncs bool) error {
 		return p.doConfiguredStop(cmd, p.procConf.ShutDownParams)
 	}
 	err := cmd.Stop(p.procConf.ShutDownParams.Signal, p.procConf.ShutDownParams.ParentOnly)
+	if errors.Is(err, syscall.ESRCH) || errors.Is(err, os.ErrProcessDone) {
+		// the command exited by itself at this very moment: nothing is left to stop
+		log.Debug().Msgf("%s had already exited", p.getName())
+		err = nil
+	}
 	if err != nil {
 		log.Error().Err(err).Msgf("terminating %s failed", p.getName())
 	}
